@@ -1190,6 +1190,9 @@ func (e *Engine) convertTV(x TV, t types.Type) TV {
 	if types.Identical(x.T.Underlying(), t.Underlying()) {
 		return TV{V: x.V, T: t}
 	}
+	if tb, ok := t.Underlying().(*types.Basic); ok && tb.Info()&types.IsFloat != 0 && fok {
+		return TV{V: &Sc{e.intToFloat(x.V.(*Sc).T, fw)}, T: t}
+	}
 	sfail("unsupported conversion %s -> %s in contract", x.T, t)
 	return TV{}
 }
